@@ -469,6 +469,45 @@ def narrow_count_case(ctx, index, rng: random.Random):
                 rec.fail(monitor="C13.rules", op=f"constructor/{which}", symptom=pr, diff=["dtype"], detail={})
         rec.case(["ctor", which], True, cls=f"narrow/ctor/{which}/{np.dtype(h.dtype)}")
         return
+    if rng.random() < 0.15:
+        # sums below the *lower* end of a compact integer type (negative contents are legal under free arithmetics; exact templates
+        # carry squared errors of zero): the sum is exact, the type widens
+        from physt.config import config
+
+        dt = rng.choice(["int16", "int32"])
+        low = int(np.iinfo(dt).min)
+        val = low // 2 - rng.randint(1, 50)
+        ed = np.array([0.0, 1.0, 2.0])
+        form = rng.choice(["a+b", "a+=b", "a-b", "sum"])
+        try:
+            with config.enable_free_arithmetics(), warnings.catch_warnings():
+                warnings.simplefilter("ignore")
+                a = Histogram1D(ed, np.array([val, 3], dtype=dt), errors2=np.array([0, 3], dtype=dt))
+                b = Histogram1D(ed, np.array([val if form != "a-b" else -val, 3], dtype=dt), errors2=np.array([0, 3], dtype=dt))
+                if form == "a+b":
+                    r = a + b
+                elif form == "a+=b":
+                    r = a.copy()
+                    r += b
+                elif form == "a-b":
+                    r = a - b
+                else:
+                    r = sum([a, b])
+        except (OverflowError, ValueError):
+            rec.case(["negative_sum", dt, form], True, cls=f"narrow/negative_sum/{dt}/{form}/refused")
+            return
+        except Exception as ex:
+            rec.fail(monitor="C13.rules", op=form, symptom=f"adding compact integer histograms raised {type(ex).__name__}", diff=["raised"], detail={"error": str(ex)[:140], "dtype": dt})
+            return
+        with attach.quiet():
+            got = int(np.asarray(r.frequencies)[0])
+            if got != 2 * val:
+                rec.fail(monitor="C13.rules", op=form, symptom="a sum below the lower end of a compact integer type wrapped around instead of widening the content type", diff=["frequencies"],
+                         detail={"dtype_before": dt, "dtype_after": str(r.dtype), "got": got, "expected": 2 * val})
+            for pr in snap.dtype_problems(r):
+                rec.fail(monitor="C13.rules", op=form, symptom=pr, diff=["dtype"], detail={})
+        rec.case(["negative_sum", dt, form], True, cls=f"narrow/negative_sum/{dt}/{form}/{np.dtype(r.dtype)}")
+        return
     dt = rng.choice(["int16", "int32"])
     top = int(np.iinfo(dt).max)
     d = rng.choice([1, 1, 2])
